@@ -418,6 +418,32 @@ func (f *Frame) enterLoop(li *LoopInfo, preds []*ssa.BasicBlock, conds []string)
 			allocBefore = e.hget(hdr, v)
 		}
 		before := e.hget(hdr, v)
+		if refs, ok := li.mapPoints[v]; ok && !(framed && f.framedVar(v)) {
+			// only these maps are written in the loop: every other map keeps its contents
+			cur := before
+			for _, rv := range refs {
+				so := e.S.heapSort[v]
+				inner := strings.TrimSuffix(strings.TrimPrefix(so, "(Array Int "), ")")
+				n := e.fresh("mapcell")
+				e.decl(n, inner)
+				ref := ""
+				if u, ok := rv.(*ssa.UnOp); ok {
+					if g, ok := u.X.(*ssa.Global); ok {
+						var pkgp string
+						if g.Pkg != nil {
+							pkgp = g.Pkg.Pkg.Path()
+						}
+						ref = e.hget(hdr, e.S.globalVar(pkgp, g.Name(), g.Type().(*types.Pointer).Elem()))
+					}
+				}
+				if ref == "" {
+					ref = f.get(rv).T
+				}
+				cur = fmt.Sprintf("(store %s %s %s)", cur, ref, n)
+			}
+			e.hset(hdr, v, cur)
+			continue
+		}
 		e.hhavoc(hdr, v)
 		if framed && f.framedVar(v) {
 			// the loop may change v only where the function's modifies clause allows
